@@ -353,6 +353,38 @@ def _run(chk, wd, proved):
         for o in ops:
             chk.dist('S-rand:op=' + o[0])
 
+    # ---------------- family T: envelope larger than the pipe's room, stop request, further write events
+    for room in (0, 1, 17, 40, 64):
+        for mid in ([], [['stop', 0]], [['feed', 0, b'RESULT 2\n']], [['stop', 0], ['feed', 0, b'RESULT 2\nOK']],
+                    [['stop', 1]], [['dispatch', 902, [['room', 3], ['room', 5]]], ['stop', 1]]):
+            for tail in ([['writable', 0, ['room', env.BIG]]],
+                         [['writable', 0, ['room', 9]], ['writable', 0, ['again']], ['writable', 0, ['room', env.BIG]]],
+                         [['writable', 0, ['room', env.BIG]], ['writable', 1, ['room', env.BIG]],
+                          ['finish', 0, b'RESULT 2\nOK', ['room', env.BIG], False]]):
+                cur['strip'] = False
+                add_case(2, 0, s_setups['both-ready'],
+                         [['dispatch', 901, [['room', room], ['room', env.BIG]]]] + mid + tail, 'T')
+                evaluations += 1
+                chk.dist('T')
+
+    # ---------------- family P: the real ServerOptions.make_pipes over os/fcntl proxies: every
+    #                  parent-side end (stdin write end, stdout/stderr read ends) must be non-blocking
+    for use_stderr in (True, False):
+        o = env.FakeOptions()
+        fds = o.make_pipes(use_stderr)
+        chk.dist('P')
+        for end in ('stdin', 'stdout', 'stderr'):
+            if fds.get(end) is None:
+                if end != 'stderr' or use_stderr:
+                    chk.violation({'kind': 'make_pipes did not create the %s pipe' % end, 'stderr': use_stderr})
+                continue
+            if not o.fd_flags.get(fds[end], 0) & os.O_NONBLOCK:
+                chk.violation({'kind': "make_pipes leaves supervisord's end of a child's %s pipe blocking" % end,
+                               'stderr': use_stderr, 'pipes': fds, 'flags_set': {str(k): v for k, v in o.fd_flags.items()},
+                               'consequence': 'a write(2)/read(2) on it from the main loop sleeps until the child acts: '
+                                              'an envelope larger than the free pipe space, or a listener that does not '
+                                              'read its stdin, stops supervisord (see the history replays of family S/T)'})
+
     # ---------------- compare with the model inside Coq
     import time
     t_gen = time.time() - chk.t0
